@@ -1,4 +1,5 @@
 import Pog.Lemmas.GenCode
+import Pog.Props.Loader
 /-
   C05 — what an emitted endpoint method returns for a declared 2xx response.
 
@@ -22,6 +23,13 @@ import Pog.Lemmas.GenCode
     a secondary 2xx response with several media types dispatches on the Content-Type        ✗ (F59)   `secondary_2xx_ignores_content_type_counterexample`
     a streaming primary response next to another 2xx response                                ✗         `stream_with_second_2xx_breaks_module_counterexample`
 -/
+/-
+  C05 at the loader (Pog/Model/Loader.lean; proved in Pog/Props/Loader.lean, claimed here; `streamFormats` regenerated from the source):
+    response_content_keys_preserved        each parsed response has, in order, exactly the media types of its resolved node
+    stream_flag_iff                        `stream` is set iff some media type (lower-cased) is in STREAM_FORMATS or some content schema is binary
+    stream_flag_perm_invariant             the flag does not depend on the order of the content mapping (`stream_format` does - nothing reads it)
+-/
+-- INDEX Pog.LoaderProps: response_content_keys_preserved, stream_flag_iff, stream_flag_perm_invariant, stream_format_perm_counterexample, stream_format_perm_partial
 namespace Pog.C05
 open Pog Pog.GenCode
 
